@@ -270,23 +270,23 @@ Definition case_pool (maxf n : N) (ops : list Z) : list Z :=
   pool_obs p1 ++ obs ++ [(-7)%Z] ++ map (obs_handle (fun z => z)) (p_fibers pf)
     ++ [(-7)%Z] ++ map Z.of_nat (p_log pf) ++ [(-7)%Z] ++ stats_obs pf.
 
-(* the stage function of Model.v with a panicking variant: x = 30 (mod 64) panics *)
-Definition stage_o (x : Z) : outcome Z :=
-  if (x mod 64 =? 30)%Z then OPanic
+(* the stage function of Model.v; with `panics` x = 30 (mod 64) panics *)
+Definition stage_o (panics : bool) (x : Z) : outcome Z :=
+  if panics && (x mod 64 =? 30)%Z then OPanic
   else match stage x with Some y => OOk y | None => OFail end.
 
 Definition obs_ores (r : option (res (list Z))) : list Z :=
   match r with Some x => obs_res x | None => [(-9)%Z] end.
 
 (* kind 9: FiberPool::parallel_map on a current-thread runtime: result, execution order, statistics *)
-Definition case_fp_map (maxf : N) (xs : list Z) : list Z :=
-  let jobs := map stage_o xs in
+Definition case_fp_map (maxf : N) (panics : bool) (xs : list Z) : list Z :=
+  let jobs := map (stage_o panics) xs in
   let p := pool_run jobs maxf (sched_seq (length xs)) in
   obs_ores (pm_result jobs p) ++ [(-7)%Z] ++ map Z.of_nat (p_log p) ++ [(-7)%Z] ++ stats_obs p.
 
 (* kind 10: FiberPool::parallel_for_each: verdict, execution order, statistics *)
 Definition case_fp_each (maxf : N) (xs : list Z) : list Z :=
-  let jobs := map stage_o xs in
+  let jobs := map (stage_o false) xs in
   let p := pool_run jobs maxf (sched_seq (length xs)) in
   (match pm_result jobs p with Some (ROk _) => 1%Z | Some _ => 0%Z | None => (-9)%Z end)
     :: [(-7)%Z] ++ map Z.of_nat (p_log p) ++ [(-7)%Z] ++ stats_obs p.
